@@ -30,7 +30,10 @@ use hickory_resolver::TokioResolver;
 use multiaddr::{Multiaddr, Protocol};
 use network_interface::{Addr, NetworkInterface, NetworkInterfaceConfig};
 use socket2::{Domain, Socket, Type};
+#[cfg(not(litep2p_verif))]
 use tokio::net::{TcpListener as TokioTcpListener, TcpStream};
+#[cfg(litep2p_verif)]
+use crate::verif::net::{TcpListener as TokioTcpListener, TcpStream};
 
 use std::{
     io,
@@ -221,6 +224,47 @@ impl GetSocketAddr for WebSocketAddress {
     }
 }
 
+#[cfg(litep2p_verif)]
+impl SocketListener {
+    /// Create new [`SocketListener`] on the simulated network.
+    pub fn new<T: GetSocketAddr>(
+        addresses: Vec<Multiaddr>,
+        reuse_port: bool,
+        _nodelay: bool,
+    ) -> (Self, Vec<Multiaddr>, DialAddresses) {
+        let (listeners, listen_addresses): (Vec<_>, Vec<_>) = addresses
+            .into_iter()
+            .filter_map(|address| {
+                let address = match T::multiaddr_to_socket_address(&address).ok()?.0 {
+                    AddressType::Dns { .. } => return None,
+                    AddressType::Socket(address) => address,
+                };
+                let listener = TokioTcpListener::bind(address).ok()?;
+                let local_address = listener.local_addr().ok()?;
+                Some((listener, local_address))
+            })
+            .unzip();
+        let listen_multi_addresses =
+            listen_addresses.iter().map(T::socket_address_to_multiaddr).collect();
+        let dial_addresses = if reuse_port {
+            DialAddresses::Reuse {
+                listen_addresses: Arc::new(listen_addresses),
+            }
+        } else {
+            DialAddresses::NoReuse
+        };
+        (
+            Self {
+                listeners,
+                poll_index: 0,
+            },
+            listen_multi_addresses,
+            dial_addresses,
+        )
+    }
+}
+
+#[cfg(not(litep2p_verif))]
 impl SocketListener {
     /// Create new [`SocketListener`]
     pub fn new<T: GetSocketAddr>(
